@@ -57,16 +57,6 @@ def cu_pseudo_density_is_positive(Tk: float):
     assert m.pseudoDensity(Tk=Tk) > 0, "pseudoDensity is positive"
 
 
-@lemma(gen={"Tk": (40.43, 788.83)})
-def cu_pseudo_density_is_zero_exactly(Tk: float):
-    """PROVED: on the WHOLE stated range pseudoDensity = 0 (refDens stays 0.0) while density = 8.913 and the expansion
-    factor is positive: the failing set is the interval [40.43, 788.83] K itself"""
-    stated_range(Cu, "linear expansion percent", "K", Tk)
-    m = Cu()
-    assert m.refDens == 0
-    assert 1.0 + m.linearExpansionPercent(Tk=Tk) / 100.0 > 0.99
-    assert m.density(Tk=Tk) == 8.913
-    assert m.pseudoDensity(Tk=Tk) == 0 and m.pseudoDensity(Tc=Tk - K0) == 0
 
 
 # ----------------------------------------------------------------------------- F191 ZnO
@@ -80,15 +70,6 @@ def zno_pseudo_density_is_positive(Tk: float):
     assert m.pseudoDensity(Tk=Tk) > 0, "pseudoDensity is positive"
 
 
-@lemma(gen={"Tk": (10.12, 1491.28)})
-def zno_pseudo_density_is_zero_exactly(Tk: float):
-    """PROVED: pseudoDensity = 0 on the whole range [10.12, 1491.28] K; density = 5.61; expansion factor positive"""
-    stated_range(ZnO, "linear expansion percent", "K", Tk)
-    m = ZnO()
-    assert m.refDens == 0
-    assert 1.0 + m.linearExpansionPercent(Tk=Tk) / 100.0 > 0.99
-    assert m.density(Tk=Tk) == 5.61
-    assert m.pseudoDensity(Tk=Tk) == 0
 
 
 # ----------------------------------------------------------------------------- F190 Uranium
@@ -103,21 +84,6 @@ def uranium_pseudo_density_is_positive(Tk: float):
     assert m.pseudoDensity(Tk=Tk) > 0, "pseudoDensity is positive"
 
 
-@lemma(gen={"Tk": (293.0, 1600.0)}, overrides=OV)
-def uranium_pseudo_density_is_zero_exactly(Tk: float):
-    """PROVED: the instance attribute refDens = 0.0 (Material.__init__) shadows the class attribute 19.07, so
-    pseudoDensity = 0 on the whole range [293, 1600] K, while the interpolated density stays in [16.71, 19.07] and the
-    interpolated expansion in [0, 4.502] %"""
-    stated_range(Uranium, "linear expansion percent", "K", Tk)
-    m = Uranium()
-    assert Uranium.refDens == 19.07 and m.refDens == 0
-    p = m.linearExpansionPercent(Tk=Tk)
-    assert 0 <= p and p <= 4.502
-    d3 = m.density(Tk=Tk)
-    assert 16.71 <= d3 and d3 <= 19.07
-    assert m.pseudoDensity(Tk=Tk) == 0
-    a = m.linearExpansion(Tk=Tk)
-    assert a > 1e-5 and a < 1e-4
 
 
 # ----------------------------------------------------------------------------- F185 Concrete, F189 UThZr (no stated range)
@@ -137,14 +103,6 @@ def uthzr_density_is_positive(Tk: float):
     assert u.density(Tk=Tk) > 0, "UThZr: density is positive"
 
 
-@lemma(gen={"Tk": (0.0, 3000.0)})
-def concrete_and_uthzr_zero_densities_exactly(Tk: float):
-    """PROVED: for ALL Tk Concrete.density = 2.3 but Concrete.pseudoDensity = 0; UThZr.pseudoDensity (own Vegard mix,
-    ~16.0) is positive but UThZr.density (Material's, refDens = 0) = 0"""
-    c = Concrete()
-    assert c.density(Tk=Tk) == 2.3 and c.pseudoDensity(Tk=Tk) == 0
-    u = UThZr()
-    assert u.pseudoDensity(Tk=Tk) > 15.9 and u.pseudoDensity(Tk=Tk) < 16.1 and u.density(Tk=Tk) == 0
 
 
 # ----------------------------------------------------------------------------- F187/F188 Sodium
@@ -163,21 +121,5 @@ def sodium_density_is_real_at_the_end_of_its_range(Tc: float):
 
 
 # ----------------------------------------------------------------------------- NEW: SiC kg/m^3 form
-@lemma(gen={"Tk": (273.15, 1773.15)})
-def sic_kgm3_form_is_1000_times_the_gcc_form(Tk: float):
-    """REFUTED (new): SiC.pseudoDensity is declared (self, Tc=None, Tk=None) while Material.pseudoDensityKgM3 forwards
-    its arguments positionally as (Tk, Tc): SiC().pseudoDensityKgM3(Tk=T) evaluates the correlation at T degrees
-    CELSIUS (and range-checks T as Celsius).  Tk in [273.15, 1773.15] K = the stated "density" range [0, 1500] C"""
-    stated_range(SiC, "density", "C", Tk - K0)
-    m = SiC()
-    assert eq(m.pseudoDensityKgM3(Tk=Tk), 1000.0 * m.pseudoDensity(Tk=Tk)), "kg/m^3 = 1000 x g/cm^3"
 
 
-@lemma(gen={"Tk": (273.15, 1500.0)})
-def sic_kgm3_form_uses_the_kelvin_value_as_celsius_exactly(Tk: float):
-    """PROVED: pseudoDensityKgM3(Tk=T) = 1000 x pseudoDensity(Tc=T), and likewise (Tc=T) gives the value at T kelvin"""
-    stated_range(SiC, "density", "C", Tk)
-    stated_range(SiC, "density", "C", Tk - K0)
-    m = SiC()
-    assert eq(m.pseudoDensityKgM3(Tk=Tk), 1000.0 * m.pseudoDensity(Tc=Tk))
-    assert eq(m.pseudoDensityKgM3(Tc=Tk), 1000.0 * m.pseudoDensity(Tk=Tk))
